@@ -244,6 +244,7 @@ fn variants() -> Vec<(&'static str, Vec<Key>)> {
         ("path-segmentation", vec![k(1, 3, &["a", "b"]), k(1, 3, &["a/b"]), k(1, 3, &["a", "b", ""])]),
         ("path-prefix", vec![k(1, 3, &["a"]), k(1, 3, &["a", "b"]), k(1, 3, &["a", "b", "c"])]),
         ("path-other", vec![k(1, 3, &["a"]), k(1, 3, &["b"]), k(1, 3, &["A"])]),
+        ("path-empty", vec![k(1, 3, &[]), k(1, 3, &[""]), k(1, 3, &["", ""])]),
         ("path-same-concatenation", vec![k(1, 3, &["ab", "c"]), k(1, 3, &["a", "bc"]), k(1, 3, &["abc"])]),
         ("method-get-fetch", vec![k(1, 1, &["a", "b"]), k(1, 5, &["a", "b"]), k(1, 4, &["a", "b"])]),
     ]
